@@ -11,6 +11,7 @@ inside __index__, so "stop here" can not be signalled from inside a dunder metho
 The result of an exploration is a *summary*: [(path condition, outcome)], with the inputs still unbounded. Properties
 are then solver queries over summaries.
 """
+import os
 import ast
 import sys
 import time
@@ -726,7 +727,7 @@ def _site():
 
 
 _STMT_CACHE = {}
-MSG_ROOTS = ['/repo/']  # files whose raise/print/log statements get the formatting stub
+MSG_ROOTS = [os.environ.get('VERIF_REPO', '/repo').rstrip('/')+'/']  # files whose raise/print/log statements get the formatting stub
 
 
 def _in_message_statement():
@@ -765,7 +766,7 @@ def _in_message_statement():
         _STMT_CACHE[key] = spans
     for a, b in _STMT_CACHE[key]:
         if a <= ln <= b:
-            return f'{fn[len("/repo/"):] if fn.startswith("/repo/") else fn}:{ln}'
+            return f'{fn[len(MSG_ROOTS[0]):] if fn.startswith(MSG_ROOTS[0]) else fn}:{ln}'
     return None
 
 
